@@ -147,6 +147,17 @@ func (w *World) ApplyEnv(ctx sdk.Context, env string) error {
 		return nil
 	case "genesis-roundtrip":
 		return w.applyGenesisEnv(ctx, env)
+	case "seed-stats-int64":
+		// totals just above MaxInt64 on (IBC channel-1 -> INTERNAL noble, uusdc): a range later arithmetic or
+		// conversions may mishandle although every single transfer amount is small
+		v, _ := math.NewIntFromString("9223372036854775812")
+		src := core.CrossChainID{ProtocolId: core.PROTOCOL_IBC, CounterpartyId: "channel-1"}
+		dst := core.CrossChainID{ProtocolId: core.PROTOCOL_INTERNAL, CounterpartyId: "noble"}
+		d := w.App.OrbiterKeeper.Dispatcher()
+		if err := d.SetDispatchedAmount(ctx, &src, &dst, denomUSDC, dispatchertypes.AmountDispatched{Incoming: v, Outgoing: v}); err != nil {
+			return err
+		}
+		return d.SetDispatchedCounts(ctx, &src, &dst, 2)
 	case "seed-stats-top":
 		// A state reachable through genesis import (statistics continue from imported totals, C17):
 		// route (IBC channel-1 -> INTERNAL noble, uusdc) starts 10 below the top of the 256-bit range.
